@@ -104,13 +104,17 @@ def _check(case):
     return _judge(col, case, spec, m, start, xs, ys)
 
 
-def _judge(col, case, spec, m, start, xs, ys):
-    """Assertions 1-5 on smooth_med, given the model and a steady state (xs, ys in linear units)."""
+def _judge(col, case, spec, m, start, xs, ys, filt=None, variant=0, modes=True):
+    """Assertions 1-5 on smooth_med, given the model and a steady state (xs, ys in linear units).
+
+    filt/variant: the filter output comes from a run over a multi-variant model `m` (column `variant` is judged against
+    the single-variant `spec`); modes=False leaves out assertion 5 (one databox cannot be level data minus steady state
+    for two different steady states)."""
     N, dev, log = case["N"], case["deviation"], spec["log"]
     mn = lm.meas_names(spec)
-    out, levels, lin = _filter(m, spec, case, start, dev, ys)
+    out, levels, lin = (filt or _filter)(m, spec, case, start, dev, ys)
     sm = out["smooth_med"]
-    p = sd.Paths(sm, spec, start, 0, N - 1)
+    p = sd.Paths(sm, spec, start, 0, N - 1, variant=variant)
     names = spec["names"]
     allv = np.concatenate([np.abs(np.log(p.arr(nm))) if log else np.abs(p.arr(nm)) for nm in names])
     allv = allv[np.isfinite(allv)]
@@ -168,7 +172,7 @@ def _judge(col, case, spec, m, start, xs, ys):
     if N - Lmax >= 1:
         sim_in = sm.copy()
         s = api("simulate_smoothed", m.simulate, sim_in, (start + Lmax) >> (start + N - 1), method="first_order", deviation=dev)
-        ps = sd.Paths(s, spec, start, Lmax, N - 1)
+        ps = sd.Paths(s, spec, start, Lmax, N - 1, variant=variant)
         for nm in names + mn:
             a, b = ps.arr(nm), p.arr(nm)[Lmax:]
             ok = np.isfinite(b)
@@ -180,6 +184,9 @@ def _judge(col, case, spec, m, start, xs, ys):
         resim = True
 
     # ---- 5. deviation mode = level mode minus (divided by) steady state ------
+    if not modes:
+        col.done()
+        return {"labels": (["resimulated"] if resim else []) + ["judged"], "nontrivial": True}
     out2, _, _ = _filter(m, spec, case, start, not dev, ys)
     p2 = sd.Paths(out2["smooth_med"], spec, start, 0, N - 1)
     lev, dv = (p2, p) if dev else (p, p2)
@@ -243,6 +250,70 @@ def _ant_case(draw):
     return case
 
 
+@__import__('hypothesis').strategies.composite
+def _variants_case(draw):
+    st_ = __import__("hypothesis").strategies
+    case = draw(kc.kalman_case(allow_tv_stds=False))
+    n, nm = case["spec"]["n"], len(case["spec"]["meas"])
+    std = st_.sampled_from([1.0, 0.5, 2.0, 1.3, 0.2, 3.0])
+    case["std_u2"] = [draw(std) for _ in range(n)]
+    case["std_w2"] = [draw(std) for _ in range(nm)]
+    case["pmul"] = draw(st_.sampled_from([1.0, 0.8, 1.2, 0.5, 0.5]))
+    return case
+
+
+def _check_variants(case):
+    """One filter run over a two-variant model (parameters and stds differ): each variant's smoothed output must
+    reproduce the data, satisfy that variant's equations and be a simulation of that variant."""
+    import copy
+    col = Collector()
+    case = dict(case, tv={})
+    spec2 = copy.deepcopy(case["spec"])
+    for p_ in spec2["params"]:
+        p_["value"] = [p_["value"], round(p_["value"] * case["pmul"], 6)]
+    singles, cases = [], [case, dict(case, std_u=case["std_u2"], std_w=case["std_w2"])]
+    N, dev = case["N"], case["deviation"]
+    start = sd.start_period(case["freq"])
+    for v in range(2):
+        sv = copy.deepcopy(case["spec"])
+        for p_, p2 in zip(sv["params"], spec2["params"]):
+            p_["value"] = p2["value"][v]
+        if not kc.in_domain(sv):
+            return {"labels": ["model_not_in_domain"], "nontrivial": False}
+        singles.append(sv)
+    xs0, ys0 = lm.steady(singles[0])
+    _, lin0 = kc.observed_values(singles[0], case)
+    mn = lm.meas_names(singles[0])
+    for v in range(2):
+        # singular observation covariances are excluded for either variant (harness-side joint covariance)
+        mv = api("build_and_solve", lm.build_model, singles[v], stds=kc.assigned_stds(singles[v], cases[v]))
+        su, sw = kc.std_dicts(singles[v], cases[v])
+        joint = rg.Joint(singles[v], mv, N, su, sw, deviation=dev)
+        for upto in range(1, N + 1):
+            rows = [joint.row(t, mn[k]) for t in range(upto) for k in range(len(mn)) if not math.isnan(lin0[t, k])]
+            vals = [lin0[t, k] for t in range(upto) for k in range(len(mn)) if not math.isnan(lin0[t, k])]
+            if joint.condition(rows, vals) is None:
+                return {"labels": ["singular_observation_covariance"], "nontrivial": False}
+    a0, a1 = kc.assigned_stds(singles[0], cases[0]), kc.assigned_stds(singles[1], cases[1])
+    m2 = api("build_and_solve_two_variants", lm.build_model, spec2, variant_count=2, stds={k: [a0[k], a1[k]] for k in a0})
+    cache = {}
+
+    def filt(m_, spec_, case_, start_, deviation, ys_):
+        # one databox for both variants: observations around variant 0's steady state
+        if deviation not in cache:
+            cache[deviation] = _filter(m2, singles[0], case, start, deviation, ys0)
+        return cache[deviation]
+
+    labels = set()
+    for v in range(2):
+        xs, ys = lm.steady(singles[v])
+        res = _judge(col, case, singles[v], m2, start, xs, ys, filt=filt, variant=v, modes=False)
+        labels |= set((res or {}).get("labels", []))
+        if "log_estimate_outside_float_range" in labels:
+            return {"labels": ["log_estimate_outside_float_range"], "nontrivial": False}
+    return {"labels": sorted(labels), "nontrivial": True}
+
+
 def prepare_unit_root(case):
     """Build and solve the unit-root model of a case: (case, spec, model, start, xs, ys) or a label dict."""
     import irispie as ir
@@ -289,4 +360,5 @@ SUBCHECKS = [
     HypSub("smoother", lambda: kc.kalman_case(allow_tv_stds=False), _check, _classify, budget={"quick": 900, "thorough": 24000}),
     HypSub("smoother_shocks_from_data", lambda: _ant_case(), _check, _classify, budget={"quick": 400, "thorough": 12000}),
     HypSub("smoother_unit_root", _unit_root_case, _check_unit_root, _classify, budget={"quick": 500, "thorough": 16000}),
+    HypSub("smoother_variants", _variants_case, _check_variants, _classify, budget={"quick": 300, "thorough": 8000}),
 ]
